@@ -402,15 +402,28 @@ def listenH : Handler := fun inp impl => do
   -- the model: kvslice parse, then the listener rules; `ui.addr` takes exactly one listener, and none when empty
   let isUI := opt == "ui.addr"
   let parsed := parseKVSlice unquote cs
-  let (mout, mlist, mtag) : String × List (Str × Str × Str) × String := match parsed with
-    | .panic _ => ("panic", [], "model-panic")
-    | .ok (.error _) => if isUI && cs.isEmpty then ("cfg", [([], [], [])], "ui-empty") else ("err", [], "err-kvslice")
+  let mtag : String := match parsed with
+    | .panic _ => "model-panic"
+    | .ok (.error _) => if isUI && cs.isEmpty then "ui-empty" else "err-kvslice"
     | .ok (.ok ms) =>
-      if isUI && cs.isEmpty then ("cfg", [([], [], [])], "ui-empty")
-      else if isUI && ms.length != 1 then ("err", [], "err-ui-count")
+      if isUI && cs.isEmpty then "ui-empty"
+      else if isUI && ms.length != 1 then "err-ui-count"
       else match parseListenersM E ms with
-        | .error e => ("err", [], lerrName e)
-        | .ok ls => ("cfg", ls.map (fun l => (l.addr, l.proto, l.cs)), s!"accepted{ls.length}")
+        | .error e => lerrName e
+        | .ok ls => s!"accepted{ls.length}"
+  -- the verdict comes from the composed model: the resolved values as `load` sees them → `listenersOf`
+  let csRaw := (inp.getObjValAs? String "cs").toOption.getD ""
+  let vals : List Resolved :=
+    [{ name := S "proxy.cs", src := .cmdline, raw := S csRaw }, { name := S opt, src := .cmdline, raw := cs }]
+  let X : ListenExt := { addrOf := E.addrOf, fieldOK := E.fieldOK }
+  let kvBad := match parsed with | .ok (.ok _) => false | _ => true
+  let (mout, mlist) : String × List (Str × Str × Str) :=
+    if kvBad && !cs.isEmpty then ("err", [])
+    else match listenersOf unquote X vals with
+      | .error _ => ("err", [])
+      | .ok (ls, ui) =>
+        if isUI then ("cfg", [match ui with | some l => (l.addr, l.proto, l.cs) | none => ([], [], [])])
+        else ("cfg", ls.map (fun l => (l.addr, l.proto, l.cs)))
   let mj := Json.mkObj [("out", mout), ("listen", Json.arr (mlist.map (fun (a, p, c) => Json.arr #[J a, J p, J c])).toArray)]
   -- the same input loaded several times gave the same answer (observed by the harness)
   let stable := (impl.getObjValAs? Bool "stable").toOption.getD true
